@@ -1,4 +1,5 @@
 """C14 (and C01) header layouts: reader side by bit provenance, writer side by write_bits sequences."""
+import re
 from .. import bits as B, hir as H, hq, tables as T
 from ..core import Anchor
 
@@ -776,7 +777,7 @@ def _sequences(ctx, SPEC):
                 cm = hq.peel(modes[0]["r"])
                 idx = hq.find(cm, lambda x: x.get("k") == "Index")
                 mi = H.lit_val(idx[0]["idx"]) if idx else None
-            out.append({"byte0": list(ranges[0]), "affine": aff, "modes_index": mi, "arm": arm})
+            out.append({"byte0": list(ranges[0]), "affine": aff, "modes_index": mi, "arm": arm, "cases": _seq_arm_cases(canon, abody)})
         for fmt in sh["formats"]:
             key = "reader::format-byte0-%d..%d" % tuple(fmt["byte0"])
             hit = [o for o in out if o["byte0"] == fmt["byte0"]]
@@ -792,6 +793,30 @@ def _sequences(ctx, SPEC):
                       "sequence count formula / header length differs from RFC 8878",
                       observed={"affine": got, "modes_byte_index": hit[0]["modes_index"]},
                       expected={"affine": want, "modes_byte_index": fmt["bytes"]})
+            # header length per case: count bytes + one modes byte, except that a zero count ends the section
+            # right after the count (RFC 8878 3.1.1.3.2.1; the two-byte form can spell zero as 0x80 0x00)
+            nb = fmt["bytes"]
+            can_be_zero = (fmt["byte0"][0] * fmt["affine"].get("b0", 0) + fmt["affine"]["const"]) <= 0 and "b0" in fmt["affine"] and len(fmt["affine"]) > 2
+            wantc = {"nonzero": {"need": nb + 1, "read": nb + 1, "modes": nb}}
+            if can_be_zero:
+                wantc["zero"] = {"need": nb, "read": nb, "modes": None}
+            gotc = hit[0]["cases"]
+            if not can_be_zero and gotc is not None:
+                gotc = {"nonzero": gotc.get("nonzero")} if gotc.get("zero") == gotc.get("nonzero") else gotc
+            ctx.check(gotc == wantc, R, key + "::length-and-modes-byte", H.loc(body, hit[0]["arm"]["body"]),
+                      "bytes required / consumed and the modes byte position per case (a zero count has no modes byte)",
+                      observed=gotc, expected=wantc)
+        z = [o for o in out if o["byte0"] == [0, 0]]
+        ctx.check(bool(z) and z[0]["cases"] is not None and z[0]["cases"].get("zero") == {"need": 0, "read": 1, "modes": None}, R,
+                  "reader::format-byte0-0..0::length-and-modes-byte", body["file"],
+                  "first byte 0: one byte consumed, no modes byte", observed=z[0]["cases"] if z else None)
+        # the byte count returned is the running count, and the first byte is guarded by the empty check
+        t = hq.peel(hq.tail_expr(body["body"]) or {})
+        okr = t.get("k") == "Call" and H.strip_generics(H.callee(t) or "").endswith("Result::Ok") and hq.peel(t["args"][0]).get("k") == "Local"
+        ix = hq.Index(body)
+        g0 = [g for g in ix.all_guards() if g.get("raw") in ("(0 == $0.len())", "(0 == core::slice::len($0))", "(core::slice::len($0) < 1)")]
+        ctx.check(okr and len(g0) == 1 and g0[0]["node"]["sp"][0] < m["sp"][0], R, "reader::empty-input-refused-first", body["file"],
+                  "an empty header is refused before the first byte is read; the running byte count is returned", observed=[g.get("raw") for g in ix.all_guards()][:3])
         gaps, ov = T.check_partition([[tuple(o["byte0"])] for o in out], 0, 255)
         ctx.check(not gaps and not ov, R, "reader::partition", body["file"], "first-byte arms tile 0..=255")
         return out
@@ -885,6 +910,59 @@ def _sequences(ctx, SPEC):
         ctx.check(not gaps and not ov, R, "writer::partition", body["file"], "encoder arms must tile 1..=max count",
                   observed={"gaps": gaps, "overlaps": ov})
     ctx.guard(R, "writer", enc)
+
+
+def _seq_arm_cases(canon, abody):
+    """Abstractly run one arm of the sequence-count match for the cases count == 0 / count != 0:
+    -> {"zero": {need, read, modes}, "nonzero": {...}} with `need` the largest source length a guard demands,
+    `read` the sum added to the running byte count and `modes` the index of the byte stored as modes (or None).
+    Returns None when the arm uses a shape this evaluator does not know."""
+    def run(block, nonzero, st):
+        stmts = list(block.get("stmts") or [])
+        if block.get("expr") is not None:
+            stmts.append({"k": "ExprStmt", "e": block["expr"]})
+        for s_ in stmts:
+            e = hq.peel(s_.get("e") or s_.get("init") or {})
+            k = e.get("k")
+            if k == "Block":
+                if not run(e, nonzero, st):
+                    return False
+            elif k == "AssignOp" and e["op"] == "+=" and hq.peel(e["l"]).get("k") == "Local" and H.lit_val(e["r"]) is not None:
+                st["read"] += H.lit_val(e["r"])
+            elif k == "Assign" and hq.self_fields(e["l"]) == ["num_sequences"]:
+                pass
+            elif k == "Assign" and hq.self_fields(e["l"]) == ["modes"]:
+                idx = hq.find(e["r"], lambda x: x.get("k") == "Index")
+                st["modes"] = H.lit_val(idx[0]["idx"]) if idx else "?"
+            elif k == "If":
+                c = canon(e["cond"])
+                mlen = re.fullmatch(r"\(core::slice::len\(\$0\) < (\d+)\)", c)
+                if mlen and e.get("else") is None and any(x.get("k") == "Ret" for x, _ in H.walk(e["then"])):
+                    st["need"] = max(st["need"], int(mlen.group(1)))
+                elif c in ("(0 != self.num_sequences)", "(0 < self.num_sequences)") and e.get("else") is None:
+                    if nonzero and not run(hq.peel(e["then"]), nonzero, st):
+                        return False
+                elif c == "(0 == self.num_sequences)":
+                    br = e["then"] if not nonzero else e.get("else")
+                    if br is not None and not run(hq.peel(br), nonzero, st):
+                        return False
+                else:
+                    return False
+            elif k is None:
+                continue
+            else:
+                return False
+        return True
+    out = {}
+    b = hq.peel(abody)
+    if b.get("k") != "Block":
+        b = {"k": "Block", "stmts": [], "expr": b}
+    for name, nz in (("zero", False), ("nonzero", True)):
+        st = {"need": 0, "read": 0, "modes": None}
+        if not run(b, nz, st):
+            return None
+        out[name] = st
+    return out
 
 
 def _three_byte_inverse(body, ws, param, af):
